@@ -23,7 +23,7 @@ for pid in props:
 na = [{"property_id": pid, "reason": src["not_applicable"].get(pid, "check not built yet")} for pid in props if pid not in src["checks"]]
 m = {
     "version": 1,
-    "setup_cmd": "cd /verif/engine && GOFLAGS=-mod=mod GOPROXY=off GOSUMDB=off GOTOOLCHAIN=local go build -o /verif/bin/vcheck ./cmd/vcheck",
+    "setup_cmd": "mkdir -p /verif/bin /verif/evidence /verif/replays && cd /verif/engine && GOFLAGS=-mod=mod GOPROXY=off GOSUMDB=off GOTOOLCHAIN=local go build -o /verif/bin/vcheck ./cmd/vcheck",
     "hooks": {"guard": "none (harness is injected by go/packages overlay and go test -overlay; /repo carries no hooks)", "enable": "n/a: overlay-only; checks load /repo's working tree with /verif/harness/** overlaid as zz_verif_*.go",
               "baseline_off_cmd": "cd /repo && GOFLAGS=-mod=mod GOPROXY=off go test -vet=off -count=1 ./...", "source_commits": [], "add_only": True},
     "engines": [{"name": "gosx", "path": "/verif/engine", "serves_properties": [c["property_id"] for c in checks],
